@@ -1,6 +1,7 @@
 package main
 
 import (
+	"bytes"
 	"encoding/json"
 	"fmt"
 	"os"
@@ -34,6 +35,11 @@ func loadReplayCase(path string) (json.RawMessage, error) {
 	}
 	if len(o.Case) == 0 {
 		return nil, fmt.Errorf("replay file %s has no case", path)
+	}
+	// the replay file is indented; the seeded choices (layout, arrival mode) hash the behaviour as TLC printed it
+	var buf bytes.Buffer
+	if json.Compact(&buf, o.Case) == nil {
+		return json.RawMessage(buf.Bytes()), nil
 	}
 	return o.Case, nil
 }
